@@ -284,13 +284,79 @@ pub fn c08_native<G: AffineRepr + 'static>(seed: u64, maxlen: usize) -> Checks {
         }
     }
     out.push((format!("{} hostile proofs / byte strings: none panics, decoding failures are FormatError {}", total, first), bad == 0));
+    // the empty batch
+    {
+        let pc = PedersenGens::<G>::default();
+        let bp = BulletproofGens::<G>::new(1, 1);
+        let r = catch(|| {
+            let mut wr = rand_chacha::ChaChaRng::seed_from_u64(seed);
+            let none: Vec<(Verifier<G, &mut merlin::Transcript>, &R1CSProof<G>)> = vec![];
+            batch_verify(&mut wr, none, &pc, &bp).is_ok()
+        });
+        out.push((format!("batch verification of an empty list returns (no panic): {:?}", r), r.is_ok()));
+    }
     out
+}
+
+/// C08, memory clause (run in a child process whose address space is limited by the parent): proofs whose
+/// two round lists are long (k entries each, k up to 31) are decoded and verified against small circuits;
+/// every call must return -- an allocation proportional to 2^k instead of to the input aborts the child.
+pub fn c08_child<G: AffineRepr + 'static>(seed: u64) -> bool {
+    let mut rng = rand_chacha::ChaChaRng::seed_from_u64(seed ^ 0xc08c);
+    let mut all = true;
+    for g in [0usize, 1, 2] {
+        let shape = circuit(g);
+        let pad = shape.padded();
+        let (shr, proof, pc, bp) = match honest::<G>(&shape, seed, pad) {
+            Some(x) => x,
+            None => return false,
+        };
+        let (pts, scs, ipp) = proof.verif_parts();
+        let (_l, _r, a, b) = ipp.verif_parts();
+        let fill: G = G::Group::rand(&mut rng).into_affine();
+        for k in [5usize, 12, 20, 24, 27, 28, 29, 30, 31] {
+            let hostile = R1CSProof::verif_from_parts(pts, scs, InnerProductProof::verif_from_parts(vec![fill; k], vec![fill; k], a, b));
+            rewind_for_verifier(&shr);
+            let mut vt = new_verifier_transcript(&shape);
+            let ok1 = build_verifier(&shape, &shr, &mut vt).verify(&hostile, &pc, &bp).is_ok();
+            rewind_for_verifier(&shr);
+            let mut vt = new_verifier_transcript(&shape);
+            let v = build_verifier(&shape, &shr, &mut vt);
+            let mut wr = rand_chacha::ChaChaRng::seed_from_u64(seed);
+            let ok2 = batch_verify(&mut wr, vec![(v, &hostile)], &pc, &bp).is_ok();
+            let bytes = hostile.to_bytes().unwrap();
+            let dec = R1CSProof::<G>::from_bytes(&bytes).is_ok();
+            println!("c08-child gates={} k={} verify_ok={} batch_ok={} decodes={}", g, k, ok1, ok2, dec);
+            all &= !ok1 && !ok2 && dec;
+        }
+    }
+    all
 }
 
 /// C11: size law, round trip, every strict prefix rejected; one non-canonical scalar, one x without a
 /// curve point and (cofactor curves) small-order components at every point position are rejected.
 pub fn c11_native<G: AffineRepr + 'static>(seed: u64, small_order: Option<Vec<G>>) -> Checks {
     let mut out: Checks = vec![];
+    // proof objects with k = 0..31 rounds (whatever circuit they would belong to) round-trip through the encoding
+    if let Some((_shr, proof, _pc, _bp)) = honest::<G>(&circuit(1), seed, 1) {
+        let (pts, scs, ipp) = proof.verif_parts();
+        let (_l, _r, a, b) = ipp.verif_parts();
+        let psz = pts[0].serialized_size(ark_serialize::Compress::Yes);
+        let ssz = scs[0].serialized_size(ark_serialize::Compress::Yes);
+        let mut rr = rand_chacha::ChaChaRng::seed_from_u64(seed ^ 0xc11);
+        let mut bad = vec![];
+        for k in 0..=31usize {
+            let l: Vec<G> = (0..k).map(|_| G::Group::rand(&mut rr).into_affine()).collect();
+            let r: Vec<G> = (0..k).map(|_| G::Group::rand(&mut rr).into_affine()).collect();
+            let obj = R1CSProof::verif_from_parts(pts, scs, InnerProductProof::verif_from_parts(l, r, a, b));
+            let bytes = obj.to_bytes().unwrap();
+            let ok = bytes.len() == 11 * psz + 5 * ssz + 16 + 2 * k * psz && matches!(R1CSProof::<G>::from_bytes(&bytes), Ok(p2) if p2.to_bytes().unwrap() == bytes);
+            if !ok {
+                bad.push(k);
+            }
+        }
+        out.push((format!("proof objects with k = 0..31 rounds: size law and decode(encode) = identity (failing k: {:?})", bad), bad.is_empty()));
+    }
     let shapes = vec![circuit(0), circuit(1), circuit(2), circuit(3), circuit(4), circuit(5), Shape::new("two_phase_2_2", &[Op::Commit, Op::AllocMul, Op::AllocMul, Op::Con], &[&[Op::Chal, Op::AllocMul, Op::AllocMul, Op::Con]]), Shape::new("two_phase_1_1", &[Op::Commit, Op::AllocMul], &[&[Op::Chal, Op::AllocMul, Op::Con]])];
     for shape in shapes.iter() {
         let pad = shape.padded();
